@@ -445,9 +445,14 @@ def observe_generate(Choices, dom, n, S_order, build_only=False):
         else:
             c = Choices.generate(list(dom), n, set(S_order))
         isv = [bool(c.is_valid(*v)) for v in itertools.product(dom, repeat=n)]
-        return None, isv, bool(c.infinite), c.first is None, c
+        inf = bool(c.infinite)
     except Exception as e:
         return type(e).__name__, None, None, None, None
+    try:
+        fnone = c.first is None
+    except Exception:
+        fnone = "raises"        # only possible outside the claimed domain (edge stream ignores `first`)
+    return None, isv, inf, fnone, c
 
 
 def trace_simplify(Choices, dom, S):
@@ -521,7 +526,7 @@ def search(ctx):
 
     # -- exhaustive: all sets of well-formed sequences
     configs = [(1, 1, None), (1, 2, None), (1, 3, None), (2, 1, None), (3, 1, None), (4, 1, None), (2, 2, None), (3, 2, None),
-               (2, 3, ctx.n(4, 5)), (3, 3, ctx.n(2, 3)), (4, 2, ctx.n(3, 4))]
+               (2, 3, ctx.n(5, 6)), (3, 3, ctx.n(3, 4)), (4, 2, ctx.n(4, 5))]
     jobs = []
     for k, n, card in configs:
         m = len(wf_sequences(list(range(k)), n))
@@ -580,7 +585,7 @@ def search(ctx):
     st["exhaustive"]["intersection_pairs"] = {"dom2_n2": len(pairs), "dom3_n2_sampled": len(p32), "dom2_n3_sampled": len(p23)}
 
     # -- random beyond: n <= 6, |S| <= 12
-    nrand = ctx.n(2500, 40000)
+    nrand = ctx.n(6000, 60000)
     sizes, ninf, skipped, kinds = {}, 0, 0, {"generate": 0, "build": 0, "intersection": 0}
     hist_n, hist_dom, simp_changed = {}, {}, 0
     cases = []
@@ -591,38 +596,25 @@ def search(ctx):
         kind = rng.choice(["generate", "generate", "build", "intersection"])
         S2 = rand_set(rng, dom, n, 8) if kind == "intersection" else None
         cases.append((kind, dom, n, S, S2))
-    for (kind, dom, n, S, S2) in cases:
-        try:
-            p = prod_len_after_simplify(Choices, dom, S)
-            if kind == "build":
-                p = 1
-                for s in S:
-                    p *= len(s)
-            if S2 is not None:
-                p = max(p, prod_len_after_simplify(Choices, dom, S2))
-        except Exception:
-            p = 0       # let check_case report the exception
-        if p > 40000:
-            skipped += 1
-            continue
-        case = jcase(kind, dom, n, S, S2)
-        r = check_case(case)
-        ev += 1
-        kinds[kind] += 1
-        distinct.add(json.dumps(case, sort_keys=True))
-        acc = accepted_set(dom, n, S)
-        ninf += (not acc)
-        sizes[len(S)] = sizes.get(len(S), 0) + 1
-        hist_n[n] = hist_n.get(n, 0) + 1
-        hist_dom[len(dom)] = hist_dom.get(len(dom), 0) + 1
-        try:
-            simp_changed += (set(Choices.simplify(list(dom), set(S))) != set(S))
-        except Exception:
-            pass
-        if len(samples) < 4 and len(S) >= 3 and acc and len(acc) < len(dom) ** n and ev % 7 == 0:
-            samples.append({"input": case, "accepted_vectors": len(acc), "of": len(dom) ** n})
-        if r:
-            record(case)
+    chunks = [cases[i:i + 40] for i in range(0, len(cases), 40)]
+    for out in vlib.pool_map(_rand_worker, chunks, chunksize=1):
+        for (case, skip, nacc, total, changed, r) in out:
+            if skip:
+                skipped += 1
+                continue
+            ev += 1
+            kind, n, nS, nd = case["kind"], case["n"], len(case["S"]), len(case["dom"])
+            kinds[kind] += 1
+            distinct.add(json.dumps(case, sort_keys=True))
+            ninf += (nacc == 0)
+            sizes[nS] = sizes.get(nS, 0) + 1
+            hist_n[n] = hist_n.get(n, 0) + 1
+            hist_dom[nd] = hist_dom.get(nd, 0) + 1
+            simp_changed += changed
+            if len(samples) < 4 and nS >= 3 and 0 < nacc < total and ev % 7 == 0:
+                samples.append({"input": case, "accepted_vectors": nacc, "of": total})
+            if r:
+                record(case)
     done = max(1, sum(kinds.values()))
     st["random"] = {"cases": done, "skipped_product_too_large": skipped, "kinds": kinds,
                     "share_infinite": round(ninf / done, 3), "share_simplify_changed_set": round(simp_changed / done, 3),
@@ -680,6 +672,34 @@ def search(ctx):
                      "each compared on every vector of dom^n (is_valid, all, first, infinite); distinct_nontrivial = exhaustive sets + distinct random inputs",
              "samples": samples, "search": st}
     return failing, stats
+
+
+def _rand_worker(chunk):
+    Choices = _C()
+    out = []
+    for (kind, dom, n, S, S2) in chunk:
+        try:
+            p = prod_len_after_simplify(Choices, dom, S)
+            if kind == "build":
+                p = 1
+                for s in S:
+                    p *= len(s)
+            if S2 is not None:
+                p = max(p, prod_len_after_simplify(Choices, dom, S2))
+        except Exception:
+            p = 0       # let check_case report the exception
+        case = jcase(kind, dom, n, S, S2)
+        if p > 40000:
+            out.append((case, True, 0, 0, 0, None))
+            continue
+        r = check_case(case)
+        acc = accepted_set(dom, n, S)
+        try:
+            changed = int(set(Choices.simplify(list(dom), set(S))) != set(S))
+        except Exception:
+            changed = 0
+        out.append((case, False, len(acc), len(dom) ** n, changed, bool(r)))
+    return out
 
 
 def _exh_dispatch(job):
@@ -780,6 +800,9 @@ def correspondence(ctx):
             if build and rng.random() < 0.5:
                 continue
             err, isv, inf, fnone, c = observe_generate(Choices, dom, n, S_order, build)
+            if fnone == "raises":
+                mism.append(f"gen stream: real `first` raised on {jcase('generate', dom, n, S)}")
+                continue
             exp = "None" if err else f"(Some ({q_bools(isv)}, {q_b(inf)}, {q_b(fnone)}))"
             txt = f"({q_nats(dom)}, {n}, {q_seqs(S_order)}, {exp})"
             d = json.dumps(jcase("build" if build else "generate", dom, n, S_order))
@@ -937,7 +960,7 @@ def correspondence(ctx):
         if err:
             exp = "None"
         else:
-            exp = f"(Some ({q_bools(isv)}, {q_b(inf)}, {q_b(fnone)}))"
+            exp = f"(Some ({q_bools(isv)}, {q_b(inf)}, {q_b(fnone is True)}))"
         edge_c.append(f"({q_nats(dom)}, {n}, {q_seqs(S_order)}, {exp})")
         edge_d.append(json.dumps(jcase("generate", dom, n, S_order)))
     chk_edge = ("Definition chk (x : " + typ + ") : bool :=\n  let '(dom, n, sq, e) := x in\n"
